@@ -58,6 +58,17 @@ fn unoid(id: &OrderId) -> i64 {
     id.0.trim_start_matches('o').parse().unwrap_or(-1)
 }
 
+/// Exchange timestamps of this driver carry microseconds (as venues state them): spec time t is
+/// 2020-01-01 + t s + (211 + 7 t) us. The projection accepts only exactly such instants: a held timestamp
+/// that was rounded, truncated or shifted (e.g. by a store / restore) is not a timestamp any report carried.
+fn time(t: i64) -> chrono::DateTime<chrono::Utc> {
+    vh::util::time(t) + chrono::Duration::microseconds(211 + 7 * t)
+}
+fn untime(d: chrono::DateTime<chrono::Utc>) -> Value {
+    let t = vh::util::untime(d);
+    if d == time(t) { json!(t) } else { json!(format!("not a reported instant: {d:?}")) }
+}
+
 fn open_of(m: &Value) -> Option<Open> {
     b(m, "has").then(|| Open::new(oid(i(m, "id")), time(i(m, "t")), dec(i(m, "f"))))
 }
